@@ -180,7 +180,7 @@ def install(interp):
                 # a bound the path condition pins to 0 or 1 gives an ordinary range (symbolic-length machinery is not
                 # needed for what is in fact a single element)
                 for v in (1, 0):
-                    if interp.ctx.entails(tz(a[0]) == v):
+                    if interp.ctx.quick_entails(tz(a[0]) == v):
                         return range(v)
                 return SymRange(0, a[0])
             if len(a) == 2:
